@@ -22,6 +22,7 @@ git apply -R "$OUT/patch.diff"
 echo "demo with change: exit $W (want non-zero); without: exit $WO (want 0)"
 rm -f "$WT/$DEMO_DIR/zz_demo_test.go"
 echo "== run checks on /repo with the patch applied"
+if [ -n "$(git -C /repo status --porcelain --untracked-files=no)" ]; then echo "REFUSING: /repo has uncommitted changes (commit contract files first)"; exit 3; fi
 cd /repo && git apply "$OUT/patch.diff" || { echo "patch does not apply to /repo"; exit 2; }
 for q in $PROPS; do
   (cd /verif && ./run.sh $q quick 2>&1 | cut -c1-300 | tail -4)
